@@ -55,6 +55,9 @@ DESIGNED = [
      "variant": {"carrier": "dense", "designation": "none", "container": "dict", "int_h0": False, "scale_exp": 0}},
     {"hermitian": True, "sizes": [3, 2], "E": ["2", "67/32", "70/32", "9", "12"], "fd_tuple": [0], "atol": "1/8",
      "variant": {"carrier": "sparse", "designation": "indices", "container": "dict", "int_h0": False, "scale_exp": 0}},
+    # two levels exactly atol apart: equal (`<=`), hence kept — the solver does not divide by a difference that is not above atol
+    {"hermitian": True, "sizes": [3, 2], "E": ["1", "9/8", "4", "8", "11"], "fd_tuple": [0], "atol": "1/8",
+     "variant": {"carrier": "dense", "designation": "indices", "container": "dict", "int_h0": False, "scale_exp": 0}},
 ]
 
 def gen_problem(rnd, hermitian=True, force=None):
